@@ -285,14 +285,13 @@ def _run_real(arrs, case, mode, expect):
         M2 = _real_match(arrs["pred"], arrs["ref"], metric, arrs["thr2"], many, serial)
     except Exception as e:
         reason = "%s: %s" % (type(e).__name__, str(e)[:160])
-        if mode == "witness":
-            return {"match": False, "why": "real package raised " + reason, "observed": arrs}
         return {"violates": True, "reason": "terminates_with_result: " + reason, "observed": {"arrays": arrs, "exception": reason}}
     bad = oracle(arrs["pred"], arrs["ref"], metric, arrs["thr"], many, M, M2)
     obs = {"arrays": arrs, "M": {str(k): v for k, v in M.items()}, "M2": {str(k): v for k, v in M2.items()}}
     if mode == "witness":
         ok = expect is None or (obs["M"] == expect["M"] and obs["M2"] == expect["M2"])
-        return {"match": ok and bad is None, "why": None if ok else "assignment differs", "observed": obs}
+        return {"match": ok, "why": None if ok else "assignment differs", "violates": bad is not None,
+                "reason": None if bad is None else "%s: %s" % bad, "observed": obs}
     return {"violates": bad is not None, "reason": None if bad is None else "%s: %s" % bad, "observed": obs}
 
 
